@@ -76,10 +76,11 @@ CHECKS['C04'] = {
                   'bounded run-time contract (collapse of the arg-max path) on the real torch/numpy decoders, exhaustive over all arg-max paths of stated shapes'),
     'text': ('PROVED for all N x C x T score tensors: in greedy_decode_ctc the symbol matrix entry (n,t) is the first arg-max class of frame t of line n iff it '
              'is not blank and differs from the previous frame\'s arg-max, else -1 (prepended frame / shifted class ids / masks verified), so every line of every '
-             'batch yields the collapse of its arg-max path.  BOUNDED, not proved: greedy_decode_ctc, PytorchEngineLineOCR.run_ocr (stub network) and '
+             'batch yields the collapse of its arg-max path; GreedyDecoder.__call__ (itertools.groupby + blank filter): the joined symbols stem from exactly the frames that survive '
+             'the collapse, in frame order.  BOUNDED, not proved: greedy_decode_ctc, PytorchEngineLineOCR.run_ocr (stub network) and '
              'GreedyDecoder equal the CTC collapse of the arg-max path for every arg-max path T<=5 (3 classes) / T<=3 (4 classes) in three score styles incl. '
              'exact ties, and for all batches of two paths T<=3; both decoders agree row by row.'),
-    'note': 'Trusted: pyvc; torch operations modelled as numpy (arg-max = first maximal index); GreedyDecoder (itertools.groupby) and the agreement of the two decoders are bounded only.',
+    'note': 'Trusted: pyvc; torch operations modelled as numpy (arg-max = first maximal index); that the two decoders agree (equal characterisations => equal lists) is bounded only.',
 }
 CHECKS['C05'] = {
     'level': 'other',
